@@ -1062,9 +1062,10 @@ static bool canResend(ssl_t *ssl)
 
     if (ssl->flags & SSL_FLAGS_SERVER)
     {
-        if (ssl->hsState == SSL_HS_FINISHED)
-            canSend = 1;
-
+        /* Expecting the client's Finished is a flight boundary only in a
+           resumed handshake (tested below).  In a full handshake it is the
+           middle of the client's flight: there is no server flight for that
+           state, sslEncodeResponse would write the resumed one */
         if (ssl->hsState == SSL_HS_CLIENT_HELLO)
         {
             canSend = 1; /* any handshake type */
